@@ -223,41 +223,55 @@ def group (fs : List FRef) (n : String) : List FRef := fs.filter (fun f => f.rna
 def opDefs (D : Document) : List Definition :=
   D.filter fun | .op .. => true | _ => false
 
+/-- The name and operation-type checks of the first loop (validate_operations.go:24-35);
+    `seen` is `operationNames`. -/
+def operationLoopErrors (S : Schema) : List String → List Definition → List Err
+  | _, [] => []
+  | seen, .frag .. :: rest => operationLoopErrors S seen rest
+  | seen, .op kind name _ _ sel :: rest =>
+    (match name with
+     | some (n, p) => if seen.contains n then [newError p "an operation with this name already exists"] else []
+     | none => []) ++
+    (if (opScope S kind).isNone then [newError (opPos kind sel) "unsupported operation type"] else []) ++
+    operationLoopErrors S
+      (match name with
+       | some (n, _) => if seen.contains n then seen else seen ++ [n]
+       | none => seen) rest
+
+def anonymousCount : List Definition → Nat
+  | [] => 0
+  | .op _ none _ _ _ :: rest => anonymousCount rest + 1
+  | _ :: rest => anonymousCount rest
+
+/-- The second loop (validate_operations.go:47-58). -/
+def loneAnonymousErrors (D : Document) : List Err :=
+  if anonymousCount D > 0 then
+    match (opDefs D).drop 1 with
+    | .op kind _ _ _ sel :: _ =>
+      [newError (opPos kind sel) "only one operation is allowed when an anonymous operation is present"]
+    | _ => []
+  else []
+
+/-- The subscription part of the first loop (validate_operations.go:36-43). -/
+def subscriptionErrors (S : Schema) (D : Document) (fuel : Nat) : List Definition → List Err × Bool
+  | [] => ([], false)
+  | .op (some (.subscription, kp)) _ _ _ sel :: rest =>
+    let kind : Option (OpKind × Pos) := some (.subscription, kp)
+    let (r, fo) := subscriptionErrors S D fuel rest
+    (match addFieldSelections S D fuel (opScope S kind) (some sel) [] with
+     | .err e => (e :: r, fo)
+     | .fuelOut => (r, true)
+     | .ok fs =>
+       if (responseNames fs).length != 1 then
+         (newError (opPos kind sel) "subscriptions may only have one root field" :: r, fo)
+       else (r, fo))
+  | _ :: rest => subscriptionErrors S D fuel rest
+
+/-- validate_operations.go. The code interleaves the three checks of the first loop per
+    definition; the observable is a multiset, the model groups them. -/
 def validateOperationsGo (S : Schema) (D : Document) (fuel : Nat) : List Err × Bool :=
-  -- first loop: names, supported type, subscription root
-  let step := fun (st : List Err × List String × Nat × Bool) (d : Definition) =>
-    match d with
-    | .frag .. => st
-    | .op kind name _ _ sel =>
-      let (errs, names, anon, fo) := st
-      let (errs, names, anon) :=
-        match name with
-        | none => (errs, names, anon + 1)
-        | some (n, p) =>
-          if names.contains n then (errs ++ [newError p "an operation with this name already exists"], names, anon)
-          else (errs, names ++ [n], anon)
-      let errs :=
-        if (opScope S kind).isNone then errs ++ [newError (opPos kind sel) "unsupported operation type"] else errs
-      match kind with
-      | some (.subscription, _) =>
-        (match addFieldSelections S D fuel (opScope S kind) (some sel) [] with
-         | .err e => (errs ++ [e], names, anon, fo)
-         | .fuelOut => (errs, names, anon, true)
-         | .ok fs =>
-           if (responseNames fs).length != 1 then
-             (errs ++ [newError (opPos kind sel) "subscriptions may only have one root field"], names, anon, fo)
-           else (errs, names, anon, fo))
-      | _ => (errs, names, anon, fo)
-  let (errs, _, anon, fo) := D.foldl step ([], [], 0, false)
-  -- second loop: lone anonymous operation
-  let errs :=
-    if anon > 0 then
-      match (opDefs D).drop 1 with
-      | .op kind _ _ _ sel :: _ =>
-        errs ++ [newError (opPos kind sel) "only one operation is allowed when an anonymous operation is present"]
-      | _ => errs
-    else errs
-  (errs, fo)
+  let (sub, fo) := subscriptionErrors S D fuel D
+  (operationLoopErrors S [] D ++ sub ++ loneAnonymousErrors D, fo)
 
 /-! ## validate_fields.go — first pass: existence and leaf/composite -/
 
@@ -937,9 +951,9 @@ def coerceNamed (S : Schema) (n : String) : Value → List Err
        | .enum e _ => if vs.contains e then [] else [newError v.pos ("cannot coerce to " ++ n)]
        | _ => [newError v.pos ("cannot coerce to " ++ n)])
     | some (.input _) => [newError v.pos ("cannot coerce to " ++ n)]
-    -- `default: panic("unsupported input coercion type")`: an argument, input field or variable
-    -- whose type is not an input type (schema.New and the variable rules exclude it)
-    | _ => [newError v.pos "panic: unsupported input coercion type"]
+    -- `default:` (2c76e2a): a type that is not an input type (a variable declared with an object
+    -- type and given a default value); the variable rules report the type itself
+    | _ => [newError v.pos ("cannot coerce to " ++ n)]
 end
 
 /-- The callback of validateValues at a top-level value (validate_values.go:14-27). -/
@@ -971,15 +985,20 @@ def valuesSels (S : Schema) (scope : Option String) : List Selection → List Er
   | s :: rest => valuesSel S scope s ++ valuesSels S scope rest
 end
 
+def varDefsOf : Definition → List VarDef
+  | .op _ _ vars _ _ => vars
+  | .frag .. => []
+
+/-- Default values of variable definitions (the `ast.Value` reached under a VariableDefinition). -/
+def defaultValueErrors (S : Schema) (vars : List VarDef) : List Err :=
+  vars.flatMap fun vd =>
+    match vd.dflt with
+    | none => []
+    | some v => valueNode S { exp := schemaType S vd.type, locDefault := false } v
+
 def validateValues (S : Schema) (D : Document) : List Err :=
-  D.flatMap fun
-    | .op kind _ vars dirs sel =>
-      (vars.flatMap fun vd =>
-        match vd.dflt with
-        | none => []
-        | some v => valueNode S { exp := schemaType S vd.type, locDefault := false } v) ++
-      valuesDirectives S dirs ++ valuesSet S (opScope S kind) sel
-    | .frag _ _ tc _ dirs sel _ => valuesDirectives S dirs ++ valuesSet S (namedType S tc) sel
+  D.flatMap fun d =>
+    defaultValueErrors S (varDefsOf d) ++ valuesDirectives S (defDirs d) ++ valuesSet S (defScope S d) (defSel d)
 
 /-! ## validate_variables.go -/
 
@@ -1047,11 +1066,14 @@ def varsFields (S : Schema) (vars : List VarDef) (defs : Option (List InputDef))
   | .mk n _ v :: rest => varsValue S vars (inputCtx defs n) v ++ varsFields S vars defs rest
 end
 
-def varsArgs (S : Schema) (vars : List VarDef) (ctxOf : String → VCtx) (args : List Argument) : VarAcc :=
-  args.foldl (fun acc a => acc ++ varsValue S vars (ctxOf a.name) a.value) {}
+def varsArgs (S : Schema) (vars : List VarDef) (ctxOf : String → VCtx) : List Argument → VarAcc
+  | [] => {}
+  | a :: rest => varsValue S vars (ctxOf a.name) a.value ++ varsArgs S vars ctxOf rest
 
-def varsDirectives (S : Schema) (vars : List VarDef) (dirs : List Directive) : VarAcc :=
-  dirs.foldl (fun acc d => acc ++ varsArgs S vars (inputCtx ((S.findDirective d.name).map (·.args))) d.args) {}
+def varsDirectives (S : Schema) (vars : List VarDef) : List Directive → VarAcc
+  | [] => {}
+  | d :: rest =>
+    varsArgs S vars (inputCtx ((S.findDirective d.name).map (·.args))) d.args ++ varsDirectives S vars rest
 
 mutual
 def varsSel (S : Schema) (vars : List VarDef) (scope : Option String) : Selection → VarAcc
@@ -1083,23 +1105,33 @@ def varsFragments (S : Schema) (D : Document) (vars : List VarDef) :
       let a := varsDirectives S vars f.dirs ++ varsSet S vars (namedType S f.tc) f.sel
       varsFragments S D vars fuel (todo ++ a.spreads) (n :: validated) (acc ++ { a with spreads := [] })
 
+/-- validate_variables.go:31-35. -/
+def variableTypeErrors (S : Schema) (vd : VarDef) : List Err :=
+  match schemaType S vd.type with
+  | none => [newError vd.type.pos "unknown type"]
+  | some t => if isInputRef S t then [] else [newError vd.type.pos (t.toString ++ " is not an input type")]
+
+/-- The loop over the variable definitions (validate_variables.go:21-36); `seen` are the keys of
+    `variableDefinitions` (the first definition of a name is kept, which is what `find?` on the
+    definition list returns). -/
+def variableDefErrors (S : Schema) : List String → List VarDef → List Err
+  | _, [] => []
+  | seen, vd :: rest =>
+    (if seen.contains vd.name then [newError vd.npos "a variable with this name already exists"] else []) ++
+    variableTypeErrors S vd ++
+    variableDefErrors S (if seen.contains vd.name then seen else seen ++ [vd.name]) rest
+
+def unusedVariableErrors (encountered : List String) (vars : List VarDef) : List Err :=
+  vars.flatMap fun vd => if encountered.contains vd.name then [] else [newError vd.pos "unused variable"]
+
 def validateVariablesOp (S : Schema) (D : Document) (fuel : Nat) (kind : Option (OpKind × Pos))
     (vars : List VarDef) (dirs : List Directive) (sel : SelSet) : List Err × Bool :=
-  -- definitions: duplicates and types
-  let (e1, firsts) := vars.foldl (fun (st : List Err × List VarDef) vd =>
-    let dup := st.2.any (fun x => x.name = vd.name)
-    let e := if dup then [newError vd.npos "a variable with this name already exists"] else []
-    let t := match schemaType S vd.type with
-      | none => [newError vd.type.pos "unknown type"]
-      | some t => if isInputRef S t then [] else [newError vd.type.pos (t.toString ++ " is not an input type")]
-    (st.1 ++ e ++ t, if dup then st.2 else st.2 ++ [vd])) ([], [])
   -- validate(def), then the fragments it reaches
-  let a := varsDirectives S firsts dirs ++ varsSet S firsts (opScope S kind) sel
-  match varsFragments S D firsts fuel a.spreads [] { a with spreads := [] } with
-  | none => (e1, true)
+  let a := varsDirectives S vars dirs ++ varsSet S vars (opScope S kind) sel
+  match varsFragments S D vars fuel a.spreads [] { a with spreads := [] } with
+  | none => (variableDefErrors S [] vars, true)
   | some acc =>
-    (e1 ++ acc.errs ++ vars.flatMap (fun vd =>
-      if acc.encountered.contains vd.name then [] else [newError vd.pos "unused variable"]), false)
+    (variableDefErrors S [] vars ++ acc.errs ++ unusedVariableErrors acc.encountered vars, false)
 
 def validateVariables (S : Schema) (D : Document) (fuel : Nat) : List Err × Bool :=
   D.foldl (fun (st : List Err × Bool) d =>
